@@ -214,3 +214,11 @@ Definition lres_val (r : lres) : val :=
   | LErr s => VL [VN 1]
   | LFuel => VL [VN 3]
   end.
+
+(* specification predicates: P holds of the state in which the traversal stopped, value or error (work done so far) *)
+Definition holds (P : lstate -> Prop) (r : lres) : Prop :=
+  match r with LDone s => P s | LErr s => P s | LFuel => True end.
+Definition holds2 (P Q : lstate -> Prop) (r : lres) : Prop :=
+  match r with LDone s => P s | LErr s => Q s | LFuel => True end.
+(* file.go Open: maxLoads: fileSize/minBytesPerLink + 1024 *)
+Definition open_max_loads (size : N) : N := size / 8 + 1024.
